@@ -238,6 +238,7 @@ type Check struct {
 	Seed        int64
 	P           *Program
 	Obls        []*Obligation
+	varIdxScope func(*ssa.Function) bool // guardRule: functions whose variable-index sites are collected too
 	Explanation string
 	Assumptions []string
 	Trusted     []string
